@@ -344,6 +344,8 @@ def run(sh):
             return un
         for k, v in (obs.get("outcomes") or {}).items():
             sh.count(f"constraint_{k}", v)
+            if k == "escaped-timeout":  # fallback escape: a slow (not a provably stuck) target
+                sh.count(f"escape_timeout_cases_{case['worker']}_{case.get('shape', 'task')}")
         if obs.get("lock_waiters"):
             sh.count("cases_with_a_submitter_polling_the_lock")
         if obs.get("steered"):
